@@ -104,6 +104,31 @@ func extractLink(repo string, o *out) {
 			sentOnErr = boolS(!guarded)
 		}
 	}
+	// sent_counted_on_every_clean_end: ... and on a clean end nothing but the metrics switch stands between the copy and the Add: the else
+	// of `err != nil` is directly the `if <metrics enabled>` that holds the Add (no further condition on the link or its stubs)
+	everyClean := ""
+	if fd := p.method("ToxicLink", "write"); fd != nil && fd.Body != nil {
+		ast.Inspect(fd.Body, func(n ast.Node) bool {
+			s, ok := n.(*ast.IfStmt)
+			if !ok || show(fs, s.Cond) != "err != nil" || s.Else == nil {
+				return true
+			}
+			hasAdd := func(b ast.Node) bool {
+				return find(b, func(x ast.Node) bool {
+					c, ok := x.(*ast.CallExpr)
+					return ok && strings.Contains(show(fs, c.Fun), "SentBytesTotal") && strings.HasSuffix(show(fs, c.Fun), ".Add")
+				}) != nil
+			}
+			switch e := s.Else.(type) {
+			case *ast.IfStmt:
+				everyClean = boolS(strings.HasSuffix(show(fs, e.Cond), "proxyMetricsEnabled()") && hasAdd(e.Body) && !strings.Contains(show(fs, e.Cond), "&&"))
+			case *ast.BlockStmt:
+				everyClean = boolS(hasAdd(e))
+			}
+			return true
+		})
+	}
+	o.emit("sent_counted_on_every_clean_end", "", "bool", everyClean, "true", "", "")
 	o.emit("sent_counted_on_error", "", "bool", sentOnErr, "false", "", "")
 
 	// ---- RemoveToxic flush timeout
